@@ -1496,6 +1496,7 @@ package mocrelay
 //@   ensures all(c, chan ServerMsg, !fresh(c) ==> (chanhead(c) == old(chanhead(c)) && chanclosed(c) == old(chanclosed(c))))
 //@   ensures[C07] all(c, chan ServerMsg, !fresh(c) ==> (len(chanbuf(c)) >= old(len(chanbuf(c))) && g(dropped, c) >= old(g(dropped, c)) && forall(i, 0, old(len(chanbuf(c))), chanbuf(c)[i] == old(chanbuf(c))[i])))
 //@   ensures[C07] all(c, chan ServerMsg, !fresh(c) ==> forall(i, old(len(chanbuf(c))), len(chanbuf(c)), isDeliveryTo(subs, chanbuf(c)[i], c, event)))
+//@   ensures[C07] all(c, chan ServerMsg, (!fresh(c) && !(chanbuf(c) == old(chanbuf(c)) && g(dropped, c) == old(g(dropped, c)))) ==> listened(subs, c))
 //@   ensures[C07] all(r, string, all(sid, string, (registered(subs, r, sid) && matches(subAt(subs, r, sid).Matcher, event)) ==> len(chanbuf(subAt(subs, r, sid).Ch)) + g(dropped, subAt(subs, r, sid).Ch) > old(len(chanbuf(subAt(subs, r, sid).Ch)) + g(dropped, subAt(subs, r, sid).Ch))))
 //@   loop 1 visited vr
 //@     lwrites anychan(ServerMsg), anylock(subs.subs.m[""].mu)
@@ -1503,6 +1504,7 @@ package mocrelay
 //@     invariant all(c, chan ServerMsg, !fresh(c) ==> (chanhead(c) == old(chanhead(c)) && chanclosed(c) == old(chanclosed(c))))
 //@     invariant[C07] all(c, chan ServerMsg, !fresh(c) ==> (len(chanbuf(c)) >= old(len(chanbuf(c))) && g(dropped, c) >= old(g(dropped, c)) && forall(i, 0, old(len(chanbuf(c))), chanbuf(c)[i] == old(chanbuf(c))[i])))
 //@     invariant[C07] all(c, chan ServerMsg, !fresh(c) ==> forall(i, old(len(chanbuf(c))), len(chanbuf(c)), isDeliveryTo(subs, chanbuf(c)[i], c, event)))
+//@     invariant[C07] all(c, chan ServerMsg, (!fresh(c) && !(chanbuf(c) == old(chanbuf(c)) && g(dropped, c) == old(g(dropped, c)))) ==> listened(subs, c))
 //@     invariant[C07] all(r, string, all(sid, string, (vr[r] && registered(subs, r, sid) && matches(subAt(subs, r, sid).Matcher, event)) ==> len(chanbuf(subAt(subs, r, sid).Ch)) + g(dropped, subAt(subs, r, sid).Ch) > old(len(chanbuf(subAt(subs, r, sid).Ch)) + g(dropped, subAt(subs, r, sid).Ch))))
 //@   loop 2 visited vs
 //@     lwrites anychan(ServerMsg)
@@ -1510,6 +1512,7 @@ package mocrelay
 //@     invariant all(c, chan ServerMsg, !fresh(c) ==> (chanhead(c) == old(chanhead(c)) && chanclosed(c) == old(chanclosed(c))))
 //@     invariant[C07] all(c, chan ServerMsg, !fresh(c) ==> (len(chanbuf(c)) >= old(len(chanbuf(c))) && g(dropped, c) >= old(g(dropped, c)) && forall(i, 0, old(len(chanbuf(c))), chanbuf(c)[i] == old(chanbuf(c))[i])))
 //@     invariant[C07] all(c, chan ServerMsg, !fresh(c) ==> forall(i, old(len(chanbuf(c))), len(chanbuf(c)), isDeliveryTo(subs, chanbuf(c)[i], c, event)))
+//@     invariant[C07] all(c, chan ServerMsg, (!fresh(c) && !(chanbuf(c) == old(chanbuf(c)) && g(dropped, c) == old(g(dropped, c)))) ==> listened(subs, c))
 //@     invariant[C07] all(c, chan ServerMsg, !fresh(c) ==> len(chanbuf(c)) + g(dropped, c) >= lold(len(chanbuf(c)) + g(dropped, c)))
 //@     invariant[C07] all(sid, string, all(c, chan ServerMsg, (vs[sid] && has(m.m, sid) && matches(m.m[sid].Matcher, event) && refof(c) == refof(m.m[sid].Ch)) ==> len(chanbuf(c)) + g(dropped, c) > old(len(chanbuf(c)) + g(dropped, c))))
 
@@ -1553,10 +1556,14 @@ package mocrelay
 //@   requires typeis(msg, *ClientReqMsg) ==> as(msg, *ClientReqMsg).ReqFilters != nil
 //@   writes contents(router.subs.subs.m), eachkey(k, router.subs.subs.m, contents(router.subs.subs.m[k].m)), anychan(ServerMsg), anylock(router.subs.subs.mu), anylock(router.subs.subs.m[""].mu)
 //@   ensures registryWF(router.subs)
+//@   ensures all(c, chan ServerMsg, !fresh(c) ==> (chanhead(c) == old(chanhead(c)) && chanclosed(c) == old(chanclosed(c))))
 //@   ensures[C07] typeis(msg, *ClientReqMsg) ==> (typeis(result, *ServerEOSEMsg) && as(result, *ServerEOSEMsg).SubscriptionID == as(msg, *ClientReqMsg).SubscriptionID && registered(router.subs, reqID, as(msg, *ClientReqMsg).SubscriptionID) && refof(subAt(router.subs, reqID, as(msg, *ClientReqMsg).SubscriptionID).Ch) == refof(subCh))
 //@   ensures[C07] typeis(msg, *ClientEventMsg) ==> (typeis(result, *ServerOKMsg) && as(result, *ServerOKMsg).EventID == as(msg, *ClientEventMsg).Event.ID && as(result, *ServerOKMsg).Accepted)
 //@   ensures[C07] typeis(msg, *ClientEventMsg) ==> all(r, string, all(sid, string, (registered(router.subs, r, sid) && matches(subAt(router.subs, r, sid).Matcher, as(msg, *ClientEventMsg).Event)) ==> len(chanbuf(subAt(router.subs, r, sid).Ch)) + g(dropped, subAt(router.subs, r, sid).Ch) > old(len(chanbuf(subAt(router.subs, r, sid).Ch)) + g(dropped, subAt(router.subs, r, sid).Ch))))
 //@   ensures[C07] typeis(msg, *ClientEventMsg) ==> all(c, chan ServerMsg, !fresh(c) ==> forall(i, old(len(chanbuf(c))), len(chanbuf(c)), isDeliveryTo(router.subs, chanbuf(c)[i], c, as(msg, *ClientEventMsg).Event)))
+//@   ensures[C07] typeis(msg, *ClientEventMsg) ==> all(c, chan ServerMsg, (!fresh(c) && !(chanbuf(c) == old(chanbuf(c)) && g(dropped, c) == old(g(dropped, c)))) ==> old(listened(router.subs, c)))
+//@   ensures[C07] !typeis(msg, *ClientEventMsg) ==> all(c, chan ServerMsg, !fresh(c) ==> (chanbuf(c) == old(chanbuf(c)) && g(dropped, c) == old(g(dropped, c))))
+//@   ensures[C07] all(r, string, all(sid, string, registered(router.subs, r, sid) ==> ((old(registered(router.subs, r, sid)) && subAt(router.subs, r, sid) == old(subAt(router.subs, r, sid))) || refof(subAt(router.subs, r, sid).Ch) == refof(subCh))))
 //@   ensures[C07] typeis(msg, *ClientCloseMsg) ==> (isnil(result) && !registered(router.subs, reqID, as(msg, *ClientCloseMsg).SubscriptionID))
 //@   ensures[C07] typeis(msg, *ClientCountMsg) ==> typeis(result, *ServerCountMsg)
 
@@ -1565,11 +1572,14 @@ package mocrelay
 //@ func RouterHandler.ServeNostr
 //@   serves C07 C13
 //@   requires router != nil && router.buflen >= 0 && registryWF(router.subs)
+//@   requires !isnil(send) && !listened(router.subs, send)
 //@   requires forall(i, 0, len(chanbuf(recv)), wfClientMsg(chanbuf(recv)[i]) && (typeis(chanbuf(recv)[i], *ClientReqMsg) ==> as(chanbuf(recv)[i], *ClientReqMsg).ReqFilters != nil))
 //@   assert @exit: calledcount(cancel) >= 1
 //@   assert @exit: !has(router.subs.subs.m, reqID)
 //@   loop 2
 //@     invariant registryWF(router.subs) && !isnil(subCh) && chanbuf(recv) == lold(chanbuf(recv)) && 0 <= chanhead(recv)
+//@     invariant[C07] !listened(router.subs, send) && refof(subCh) != refof(send)
+//@     invariant[C07] (len(chanbuf(send)) + g(dropped, send)) - lold(len(chanbuf(send)) + g(dropped, send)) == chanhead(recv) - lold(chanhead(recv))
 
 // the forwarding loops of a merged session and of the relay's writer: every blocking select is cancellable
 //@ func mergeHandlerSession.handleRecv
@@ -1613,19 +1623,20 @@ package mocrelay
 
 //@ func NIP11.ServeHTTP
 //@   serves C20
-//@   requires nip11 != nil && r != nil && !has(respHeader(w), "Content-Type") && !has(respHeader(w), "Access-Control-Allow-Origin") && g(wstatus, refof(w)) == 0
-//@   writes ghost(routed, r), ghost(wbytes, w), ghost(wstatus, w), ghost(wtext, w), contents(respHeader(w))
+//@   requires nip11 != nil && r != nil && !has(respHeader(w), "Content-Type") && !has(respHeader(w), "Access-Control-Allow-Origin") && g(wstatus, refof(w)) == 0 && !g(wcommitted, refof(w))
+//@   writes ghost(routed, r), ghost(wbytes, w), ghost(wstatus, w), ghost(wtext, w), ghost(wcommitted, w), ghost(wct, w), ghost(wacao, w), contents(respHeader(w))
 //@   promises g(routed, r) == 2
-//@   ensures[C20] (old(wantsNIP11(r)) && g(wstatus, refof(w)) == 0) ==> g(wbytes, refof(w)) == jsonOf(box(nip11, any))
-//@   ensures[C20] (old(wantsNIP11(r)) && g(wstatus, refof(w)) == 0) ==> hdrGet(respHeader(w), "Content-Type") == "application/nostr+json"
-//@   ensures[C20] (old(wantsNIP11(r)) && g(wstatus, refof(w)) == 0) ==> hdrGet(respHeader(w), "Access-Control-Allow-Origin") == "*"
+//@   ensures[C20] g(wcommitted, refof(w))
+//@   ensures[C20] (old(wantsNIP11(r)) && g(wstatus, refof(w)) != 500) ==> ((g(wstatus, refof(w)) == 0 || g(wstatus, refof(w)) == 200) && g(wbytes, refof(w)) == jsonOf(box(nip11, any)))
+//@   ensures[C20] (old(wantsNIP11(r)) && g(wstatus, refof(w)) != 500) ==> g(wct, refof(w)) == "application/nostr+json"
+//@   ensures[C20] (old(wantsNIP11(r)) && g(wstatus, refof(w)) != 500) ==> g(wacao, refof(w)) == "*"
 //@   ensures[C20] !old(wantsNIP11(r)) ==> g(wstatus, refof(w)) == 400
 
 //@ func ServeMux.ServeHTTP
 //@   serves C20
 //@   requires mux != nil && r != nil && mux.Relay != nil
 //@   requires g(wtext, refof(w)) == ""
-//@   requires mux.NIP11 != nil ==> (!has(respHeader(w), "Content-Type") && !has(respHeader(w), "Access-Control-Allow-Origin") && g(wstatus, refof(w)) == 0)
+//@   requires mux.NIP11 != nil ==> (!has(respHeader(w), "Content-Type") && !has(respHeader(w), "Access-Control-Allow-Origin") && g(wstatus, refof(w)) == 0 && !g(wcommitted, refof(w)))
 //@   ensures[C20] old(isUpgrade(r)) ==> (g(routed, r) == 1 && g(wtext, refof(w)) == old(g(wtext, refof(w))))
 //@   ensures[C20] (!old(isUpgrade(r)) && old(wantsNIP11(r)) && mux.NIP11 != nil) ==> g(routed, r) == 2
 //@   ensures[C20] (!old(isUpgrade(r)) && old(wantsNIP11(r)) && mux.NIP11 == nil) ==> (g(wtext, refof(w)) == "{}" && g(routed, r) == old(g(routed, r)))
